@@ -63,7 +63,23 @@ def build_pool(d):
         r = vcommon.run([vcommon.tool("plain", "gensquashfs"), "--pack-dir", src, "-c", comp, "-b", "4096", "-x", "-e", "-q", p], timeout=120)
         if r.rc != 0:
             continue
-        pool.append(describe(p, damaged=False))
+        clean = describe(p, damaged=False)
+        pool.append(clean)
+        # the same image with the compressed bytes of one file's first data block (and, second variant, of a fragment block) destroyed:
+        # the decompressor fails in the middle of a history and is used again afterwards
+        raw = open(p, "rb").read()
+        im = sqfsimg.Image(raw)
+        big = im.paths.get(b"big")
+        for vi, (pos, ln) in enumerate([(big.blocks_start, 24)] + ([(im.frags[0][0], 24)] if im.frags else [])):
+            b = bytearray(raw)
+            b[pos + 2:pos + 2 + ln] = b"\xff" * ln
+            p2 = os.path.join(d, "dmgblk_%s_%d.sqfs" % (comp, vi))
+            with open(p2, "wb") as fh:
+                fh.write(bytes(b))
+            dd = dict(clean)
+            dd["path"] = p2
+            dd["damaged"] = True
+            pool.append(dd)
     for dc in (False, True):
         img, lay = sqfswrite.build(sqfswrite.simple_tree(), data_comp=dc, pad=4096)
         p = os.path.join(d, "py_%d.sqfs" % dc)
@@ -104,7 +120,7 @@ def describe(path, damaged):
 
 @st.composite
 def cases(draw, tier="quick"):
-    npool = 19
+    npool = 29
     pi = draw(st.integers(0, npool - 1))
     nops = draw(st.integers(3, 40))
     ops = []
